@@ -195,6 +195,16 @@ fn mixed_stream(rng: &mut Rng) -> (Vec<DltMessage>, Vec<String>) {
     groups.push(vec![proto("ECU1", V_LOG_INFO, "SYS", "FILE", verb(&[A::Str("FLDA"), A::U32(43), A::U32(1), A::Raw(&d2), A::Str("FLDA")]))]); // without FLST
     groups.push(vec![proto("ECU1", V_LOG_INFO, "APP", "FILE", verb(&[A::Str("FLDA"), A::U32(44), A::U32(1), A::Raw(&d2), A::Str("FLDA")]))]); // other apid: never dropped
     groups.push(vec![proto("ECU1", V_LOG_INFO, "SYS", "FILE", verb(&[A::Str("FLDA"), A::U32(45), A::U32(1), A::Raw(&d2), A::Str("FLDX")]))]); // not FLDA framed
+    // complete transfers from the other three sources (apid, ctid) in {SYS, APP} x {FILE, FIL2}: a file transfer plugin
+    // configured for one source must let the FLDA packages of every other source pass
+    for (serial, (ap, ct)) in [(50u32, ("SYS", "FIL2")), (51, ("APP", "FILE")), (52, ("APP", "FIL2"))] {
+        groups.push(vec![
+            proto("ECU1", V_LOG_INFO, ap, ct, verb(&[A::Str("FLST"), A::U32(serial), A::Str("b.bin"), A::U32(6), A::Str("date"), A::U32(2), A::U32(3), A::Str("FLST")])),
+            proto("ECU1", V_LOG_INFO, ap, ct, verb(&[A::Str("FLDA"), A::U32(serial), A::I32(1), A::Raw(&d2), A::Str("FLDA")])),
+            proto("ECU1", V_LOG_INFO, ap, ct, verb(&[A::Str("FLDA"), A::U32(serial), A::I32(2), A::Raw(&d2), A::Str("FLDA")])),
+            proto("ECU1", V_LOG_INFO, ap, ct, verb(&[A::Str("FLFI"), A::U32(serial), A::Str("FLFI")])),
+        ]);
+    }
     groups.push(vec![proto("ECU1", V_LOG_INFO, "SYS", "FILE", verb(&[A::Str("FLIF"), A::U32(42), A::Str("x"), A::Str("FLIF")]))]);
     // --- every decoder: traffic that MATCHES it, in all extended-header variants (an existing header must stay untouched)
     const HV: [(&str, Option<(u8, u8, &str, &str)>); 7] = [
@@ -354,6 +364,58 @@ fn ids_stream(rng: &mut Rng) -> Vec<DltMessage> {
     v
 }
 
+/// id populations up to and beyond the pseudonym capacity (999 per table): `size` distinct ids on one level (ecu | apid of
+/// one ecu | ctid of one ecu/apid), log and control messages, then a second pass over a sample of the ids (same id -> same
+/// pseudonym, also late and for control messages)
+fn pop_stream(rng: &mut Rng, level: &str, size: usize) -> Vec<DltMessage> {
+    const B36: &[u8] = b"0123456789ABCDEFGHIJKLMNOPQRSTUVWXYZ";
+    let id = |k: usize| -> DltChar4 {
+        let k = k + 40; // keep away from "000"
+        DltChar4::from_buf(&[b'Q', B36[(k / 1296) % 36], B36[(k / 36) % 36], B36[k % 36]])
+    };
+    let mut order: Vec<usize> = (0..size).collect();
+    let mut again: Vec<usize> = vec![0, 1, 2, 98, 99, 100, 249, 250, 254, 255, 256, 257, 299, 998, 999, 1000, 1001, 1009, 1010];
+    for _ in 0..40 {
+        again.push(rng.below(size as u64) as usize);
+    }
+    order.extend(again.into_iter().filter(|k| *k < size));
+    order.push(size - 1);
+    let mut v = Vec::new();
+    for (t, k) in order.into_iter().enumerate() {
+        let (ecu, apid, ctid) = match level {
+            "ecu" => (id(k), char4("APP"), char4("CTX")),
+            "apid" => (char4("ECU1"), id(k), char4("CTX")),
+            _ => (char4("ECU1"), char4("APP"), id(k)),
+        };
+        let (vmm, noar, pl) = match t % 11 {
+            3 => {
+                let mut sw = vec![19, 0, 0, 0, 0];
+                sw.extend_from_slice(&5u32.to_le_bytes());
+                sw.extend_from_slice(b"SW 1\0");
+                (CTRL_RESP, 0, sw)
+            }
+            7 => (CTRL_REQ, 0, vec![19, 0, 0, 0]),
+            _ => {
+                let text = format!("pop {}", t);
+                let (n, p) = verb(&[A::Str(&text)]);
+                (V_LOG_INFO, n, p)
+            }
+        };
+        v.push(DltMessage {
+            index: t as u32,
+            reception_time_us: BASE_US + t as u64 * 1000,
+            ecu,
+            timestamp_dms: 1000 + t as u32 * 10,
+            standard_header: DltStandardHeader { htyp: 0x31, mcnt: (t & 0xff) as u8, len: 0 },
+            extended_header: Some(DltExtendedHeader { verb_mstp_mtin: vmm, noar, apid, ctid }),
+            payload: pl,
+            payload_text: None,
+            lifecycle: 0,
+        });
+    }
+    v
+}
+
 fn file_stream(path: &str, n: usize) -> Vec<DltMessage> {
     let f = std::fs::File::open(path).expect("open example file");
     let ext = std::path::Path::new(path).extension().and_then(|s| s.to_str()).unwrap_or("").to_string();
@@ -391,18 +453,34 @@ fn vec_of(m: &DltMessage) -> Value {
 }
 
 fn in_event(pos: usize, m: &DltMessage, tag: &str) -> Value {
-    let flda = m.is_verbose()
-        && m.verb_mstp_mtin().map(|v| v >> 1 == (4 << 3)).unwrap_or(false)
-        && m.noar() == 5
-        && m.apid() == Some(&char4("SYS"))
-        && m.ctid() == Some(&char4("FILE"))
-        && FileTransferPlugin::is_type(m, "FLDA");
+    // FLDA-shaped: verbose log info with 5 arguments framed by "FLDA" (whether the source matches the configured apid/ctid of
+    // the file transfer plugin is decided by TLC from hdr.ft)
+    let fshape = m.is_verbose() && m.verb_mstp_mtin().map(|v| v >> 1 == (4 << 3)).unwrap_or(false) && m.noar() == 5 && FileTransferPlugin::is_type(m, "FLDA");
     let a0 = m.into_iter().next().map(|a| a.payload_raw.len() as i64).unwrap_or(-1);
-    json!({"ev":"in","pos":pos,"vec":vec_of(m),"flda":flda,"cr":m.is_ctrl_response(),"a0":a0,"tag":tag})
+    json!({"ev":"in","pos":pos,"vec":vec_of(m),"fshape":fshape,"cr":m.is_ctrl_response(),"a0":a0,"tag":tag})
 }
 
 // ------------------------------------------------------------------------------------------------ plugins
-fn mk_plugins(chain: &[String], tests: &str, work: &str, case: u64) -> Result<Vec<Box<dyn Plugin + Send>>, String> {
+/// apid / ctid configuration of the file transfer plugin: none | match (SYS / FILE, the main source of the streams) |
+/// other (APP / FIL2, another source of the streams)
+struct FtCfg {
+    apid: Option<&'static str>,
+    ctid: Option<&'static str>,
+}
+impl FtCfg {
+    fn from_plan(e: &Value) -> FtCfg {
+        let pick = |v: &Value, m: &'static str, o: &'static str| match v.as_str().unwrap_or("match") {
+            "none" => None,
+            "other" => Some(o),
+            _ => Some(m),
+        };
+        FtCfg { apid: pick(&e["ft"]["apid"], "SYS", "APP"), ctid: pick(&e["ft"]["ctid"], "FILE", "FIL2") }
+    }
+    fn hdr(&self) -> Value {
+        json!({"apid": self.apid.map(|a| idstr(&char4(a))).unwrap_or_default(), "ctid": self.ctid.map(|a| idstr(&char4(a))).unwrap_or_default()})
+    }
+}
+fn mk_plugins(chain: &[String], ft: &FtCfg, tests: &str, work: &str, case: u64) -> Result<Vec<Box<dyn Plugin + Send>>, String> {
     let mut v: Vec<Box<dyn Plugin + Send>> = Vec::new();
     let mut eac = EacStats::new();
     for k in chain {
@@ -412,8 +490,16 @@ fn mk_plugins(chain: &[String], tests: &str, work: &str, case: u64) -> Result<Ve
             "can" => json!({"name":"CAN","fibexDir":tests}),
             "muniic" => json!({"name":"Muniic","jsonDir":format!("{}/muniic", tests)}),
             "rewrite" => serde_json::from_str(&std::fs::read_to_string(format!("{}/rewrite.cfg", tests)).map_err(|e| e.to_string())?).map_err(|e| e.to_string())?,
-            "ft_keep" => json!({"name":"FileTransfer","apid":"SYS","ctid":"FILE","allowSave":false,"keepFLDA":true}),
-            "ft_drop" => json!({"name":"FileTransfer","apid":"SYS","ctid":"FILE","allowSave":false,"keepFLDA":false}),
+            "ft_keep" | "ft_drop" => {
+                let mut c = json!({"name":"FileTransfer","allowSave":false,"keepFLDA":k == "ft_keep"});
+                if let Some(a) = ft.apid {
+                    c["apid"] = json!(a);
+                }
+                if let Some(ct) = ft.ctid {
+                    c["ctid"] = json!(ct);
+                }
+                c
+            }
             "export" => json!({"name":"Export","exportFileName":format!("{}/export-{}.dlt", work, case),"filters":[{"type":0,"apid":"SYS"},{"type":1,"ctid":"JOUR"}]}),
             "anon" => {
                 v.push(Box::new(AnonymizePlugin::new("anon")));
@@ -522,7 +608,7 @@ fn main() {
                 w.flush().unwrap();
             }
             let orig = file_stream(&p_in, usize::MAX);
-            t.ev(json!({"ev":"reset","case":case,"hdr":{"chain":chain,"stream":stream,"file":e["file"].as_str().unwrap_or(""),"n":orig.len()}}));
+            t.ev(json!({"ev":"reset","case":case,"hdr":{"chain":chain,"ft":{"apid":"","ctid":""},"stream":stream,"file":e["file"].as_str().unwrap_or(""),"n":orig.len()}}));
             for (i, m) in orig.iter().enumerate() {
                 t.ev(in_event(i + 1, m, ""));
             }
@@ -551,17 +637,20 @@ fn main() {
             "kf" => kf_stream(&mut rng),
             "lc" => (lc_stream(&mut rng), vec![]),
             "ids" => (ids_stream(&mut rng), vec![]),
+            "pop" => (pop_stream(&mut rng, e["level"].as_str().unwrap(), e["size"].as_u64().unwrap() as usize), vec![]),
             "file" => (file_stream(e["file"].as_str().unwrap(), e["n"].as_u64().unwrap() as usize), vec![]),
             other => panic!("unknown stream {}", other),
         };
-        let plugins = match mk_plugins(&chain, &tests, &work, case) {
+        let ft = FtCfg::from_plan(e);
+        let plugins = match mk_plugins(&chain, &ft, &tests, &work, case) {
             Ok(p) => p,
             Err(err) => {
                 tool_errors.push(format!("case {}: {}", case, err));
                 continue;
             }
         };
-        t.ev(json!({"ev":"reset","case":case,"hdr":{"chain":chain,"stream":stream,"file":e["file"].as_str().unwrap_or(""),"n":msgs.len()}}));
+        t.ev(json!({"ev":"reset","case":case,"hdr":{"chain":chain,"ft":ft.hdr(),"stream":stream,"file":e["file"].as_str().unwrap_or(""),"n":msgs.len(),
+            "level":e["level"].as_str().unwrap_or(""),"size":e["size"].as_u64().unwrap_or(0)}}));
         for (i, m) in msgs.iter().enumerate() {
             t.ev(in_event(i + 1, m, tags.get(i).map(|s| s.as_str()).unwrap_or("")));
         }
